@@ -613,7 +613,24 @@ func tablesC05(c *Ctx) {
 		return used[0]
 	}
 	reqVar := one(w.finiteMaps("keyid", isVer, isKeyList), "package-level map[uint16][]string of keyid (required keys)")
-	chkVar := one(w.finiteMaps("keyid", isVer, isChecker), "package-level map[uint16]func(*KeyID) error of keyid (sanity checkers)")
+	var chkVar *finiteMap
+	{
+		// the checker table - or, when there is none, the one function that dispatches on the KeyID's version
+		var used []*finiteMap
+		for _, m := range w.finiteMaps("keyid", isVer, isChecker) {
+			if len(w.fmLookups(m)) > 0 {
+				used = append(used, m)
+			}
+		}
+		if len(used) == 0 {
+			if dm := w.dispatcherAsTable(); dm != nil {
+				chkVar = dm
+			}
+		}
+		if chkVar == nil {
+			chkVar = one(w.finiteMaps("keyid", isVer, isChecker), "package-level map[uint16]func(*KeyID) error of keyid (sanity checkers)")
+		}
+	}
 	if reqVar == nil || chkVar == nil {
 		return
 	}
